@@ -248,3 +248,42 @@ Proof.
   - destruct decoded as [raws|]; [|injection H as <-; auto].
     destruct (unserialize_all_outcomes _ _ _ _ H) as [raw [Hin Hr]]. right. exists raws, raw. auto.
 Qed.
+
+(* ---------- call histories ---------- *)
+Theorem unserialize_stateless : forall uri_ok custom_ok decode pre c post,
+  nth_error (run_history uri_ok custom_ok decode (pre ++ c :: post)) (List.length pre)
+  = Some (unserialize_octets uri_ok custom_ok decode (fst (fst c)) (snd (fst c)) (snd c)).
+Proof.
+  intros. unfold run_history. rewrite map_app. rewrite nth_error_app2; rewrite map_length; [|lia].
+  rewrite Nat.sub_diag. reflexivity.
+Qed.
+
+Lemma find_schema_self : forall s, In s schemas -> find_schema schemas (s_type s) = Some s.
+Proof.
+  intros s Hin. unfold schemas in Hin. simpl in Hin.
+  repeat (destruct Hin as [<-|Hin]; [vm_compute; reflexivity|]). contradiction.
+Qed.
+
+Lemma unserialize1_marshal : forall uri_ok custom_ok, custom_law custom_ok ->
+  forall s m, In s schemas -> valid uri_ok custom_ok s m ->
+  unserialize1 uri_ok custom_ok (VList (marshal s m)) = Ok (s_type s, m).
+Proof.
+  intros uri_ok custom_ok H s m Hin Hv.
+  pose proof (roundtrip_all uri_ok custom_ok H s m Hin Hv) as R.
+  unfold unserialize1. remember (marshal s m) as w eqn:Ew.
+  assert (Hw : w = VInt (s_type s) :: tl w) by (subst w; reflexivity).
+  rewrite Hw. rewrite (find_schema_self s Hin). rewrite <- Hw. rewrite R. reflexivity.
+Qed.
+
+(* a valid message whose octets decode to its marshalled list comes back as itself at ANY position of ANY history *)
+Theorem roundtrip_any_history : forall uri_ok custom_ok decode, custom_law custom_ok ->
+  forall sr s m p pre post, In s schemas -> valid uri_ok custom_ok s m ->
+  decode sr p = Some [VList (marshal s m)] ->
+  nth_error (run_history uri_ok custom_ok decode (pre ++ (sr, Some (ser_binary sr), p) :: post)) (List.length pre)
+  = Some (Ok [(s_type s, m)]).
+Proof.
+  intros uri_ok custom_ok decode H sr s m p pre post Hin Hv Hd.
+  rewrite unserialize_stateless. f_equal. simpl. unfold unserialize_octets, unserialize_model.
+  unfold flag_check. rewrite Bool.eqb_reflx. simpl. rewrite Hd. simpl.
+  rewrite (unserialize1_marshal uri_ok custom_ok H s m Hin Hv). reflexivity.
+Qed.
